@@ -5,6 +5,7 @@ import OV.Lemmas.C10Fallback
 import OV.Lemmas.C10Names
 import OV.Lemmas.C10Imports
 import OV.Lemmas.C10Meta
+import OV.Lemmas.C10History
 /-!
 # C10 — opset version conversion yields a valid, equivalent model at the target version
 
@@ -419,6 +420,144 @@ theorem groupnorm_rewrite_evalGraph {D E : Type} (sem : OpSem D E) (chan : D →
       ∀ m, m < b → evalNodes sem env news' m = evalNode sem env n m := by
   obtain ⟨news', f', h1, _, h3, _, h5⟩ := rewrite_eval_gn sem chan hl env n 20 f b news gn hop hA hver hb hbf hvalid ht
   exact ⟨news', f', h1, h3, h5⟩
+
+/-! ## Histories: the same object converted again and again -/
+
+/-- **The step loop composes.**  For every node, every start version and all step counts `a`, `b`: running the
+`for from_version in range(...)` loop for `a + b` steps from `v` is running it for `a` steps from `v` and then, on
+every node that is left (the node itself or whatever the adapters put in its place), for `b` steps from `v + a`.
+So converting `s → u` and then `u → t` rewrites a node exactly as converting `s → t` does — whatever the adapters
+do on the way (replace, return `None`, raise). -/
+theorem step_loop_composes (a b v : Nat) (l : Leaf) :
+    leafSteps (a + b) v l = (leafSteps a v l).flatMap (leafSteps b (v + a)) :=
+  leafSteps_compose_lemma a b v l
+
+/-- **Valid models are closed under conversion.**  Converting a valid self-consistent model at `s` (any nesting
+depth) to any target either leaves it exactly as it was or yields a model that is again valid and self-consistent
+— now at `t` — with the same readings, inputs and initializers.  Hence every theorem about *one* conversion of a
+valid model applies to the result of a previous conversion. -/
+theorem convert_closed (s t : Nat) {d : Nat} (m : Model (NodeD d)) (h : ValidModel s m) :
+    (nativeConvert t m).1 = m ∨
+    (ValidModel t (nativeConvert t m).1 ∧
+      pmNodes Op.meaning t (nativeConvert t m).1.nodes = pmNodes Op.meaning s m.nodes ∧
+      (nativeConvert t m).1.inputs = m.inputs ∧ (nativeConvert t m).1.inits = m.inits) :=
+  nativeConvert_closed s t m h
+
+/-- **Converting an already converted model is a no-op.**  A valid model that declares `t` is returned exactly as
+it is — no exception, nothing touched — by the public entry, for every `fallback` value and every behaviour of
+the C API (the inline pass finds no function, the pass takes the `== target_version` exit). -/
+theorem convert_again_noop (t : Nat) (fb : Fallback) {d : Nat} (capi : CApi (NodeD d)) (m : Model (NodeD d))
+    (h : ValidModel t m) : convertVersionApi .ir fb t capi m = (m, none) := by
+  simp only [convertVersionApi, inlineModel_valid h, requiresInlineCall, h.declared, if_true]
+
+/-- **`convert_equivalent` over histories.**  Take a valid self-consistent model at `s` and *any* sequence of calls
+`convert_version(model, t_i, fallback_i)` on the same `ir.Model` — any length, targets in any order (up, repeated,
+down, out of range), any `fallback` values — during which the ONNX C API never succeeds (in particular: every
+history with fallback off).  After the whole history the model is a valid self-consistent model at some `s'` that is
+`s` or one of the requested targets; every non-auxiliary node reads at `s'` as the corresponding node of the
+original read at `s`, in order, subgraphs of every depth included; inputs and initializers are the original ones.
+Calls that raise (downgrade, unsupported target) leave the state as it was.  Invariant by induction over the
+history (`convert_closed` for the step). -/
+theorem history_equivalent (s : Nat) {d : Nat} (hist : List (Fallback × Nat)) (m : Model (NodeD d))
+    (h : ValidModel s m) :
+    ∃ s', (s' = s ∨ s' ∈ hist.map (·.2)) ∧
+      ValidModel s' (convertHistory .ir (hist.map (fun c => (c.1, c.2, capiFails))) m).1 ∧
+      pmNodes Op.meaning s' (convertHistory .ir (hist.map (fun c => (c.1, c.2, capiFails))) m).1.nodes
+        = pmNodes Op.meaning s m.nodes ∧
+      (convertHistory .ir (hist.map (fun c => (c.1, c.2, capiFails))) m).1.inputs = m.inputs ∧
+      (convertHistory .ir (hist.map (fun c => (c.1, c.2, capiFails))) m).1.inits = m.inits := by
+  induction hist generalizing s m with
+  | nil => exact ⟨s, Or.inl rfl, h, rfl, rfl, rfl⟩
+  | cons c rest ih =>
+    obtain ⟨fb, t⟩ := c
+    simp only [List.map_cons, convertHistory]
+    have hstep : convertVersionApi .ir fb t capiFails m = requiresInlineCall fb t capiFails m := by
+      simp only [convertVersionApi, inlineModel_valid h]
+    rw [hstep]
+    rcases requiresInline_closed s t fb capiFails m h rfl with hm | ⟨hv, hpm, hin, hini⟩
+    · rw [hm]
+      obtain ⟨s', hs', a, b, c, e⟩ := ih s m h
+      refine ⟨s', ?_, a, b, c, e⟩
+      rcases hs' with h1 | h1
+      · exact Or.inl h1
+      · exact Or.inr (List.mem_cons_of_mem _ h1)
+    · obtain ⟨s', hs', a, b, c, e⟩ := ih t _ hv
+      refine ⟨s', ?_, a, b.trans hpm, c.trans hin, e.trans hini⟩
+      rcases hs' with h1 | h1
+      · exact Or.inr (by rw [h1]; exact List.mem_cons_self ..)
+      · exact Or.inr (List.mem_cons_of_mem _ h1)
+
+/-- (non-vacuity) the D13a model (a `ValidModel 20`, see `d13a_fixed`) through the history
+21, 21 again, 23, back to 18 with fallback on (the C API fails), 26: it ends at 23 with the source's reading, and the
+calls to 18 and 26 raise nothing / a `ValueError` and change nothing. -/
+example :
+    let r := convertHistory .ir [(.none, 21, capiFails), (.yes, 21, capiFails), (.no, 23, capiFails),
+                                 (.yes, 18, capiFails), (.none, 26, capiFails)] d13aModel
+    r.1.declared = some 23 ∧ r.2 = [none, none, none, none, some .badTarget] ∧
+    pmNodes Op.meaning 23 r.1.nodes = pmNodes Op.meaning 20 d13aModel.nodes ∧
+    r.1 = (nativeConvert 23 d13aModel).1 := by decide
+
+/-- **The same over histories of the `ModelProto` entry.**  Every call re-reads the proto (`ir.from_proto`: no version
+stamps), converts and writes graph and opset imports back; a call that raises leaves the proto as it was.  For every
+valid self-consistent model, every history of calls on the same `ModelProto` (any length, targets, `fallback` values;
+the C API never succeeds): the proto ends as a valid self-consistent model at `s` or at one of the requested targets,
+reads as the original, same inputs and initializers. -/
+theorem history_equivalent_proto (s : Nat) {d : Nat} (hist : List (Fallback × Nat)) (m : Model (NodeD d))
+    (h : ValidModel s m) :
+    ∃ s', (s' = s ∨ s' ∈ hist.map (·.2)) ∧
+      ValidModel s' (convertHistory .proto (hist.map (fun c => (c.1, c.2, capiFails))) m).1 ∧
+      pmNodes Op.meaning s' (convertHistory .proto (hist.map (fun c => (c.1, c.2, capiFails))) m).1.nodes
+        = pmNodes Op.meaning s m.nodes ∧
+      (convertHistory .proto (hist.map (fun c => (c.1, c.2, capiFails))) m).1.inputs = m.inputs ∧
+      (convertHistory .proto (hist.map (fun c => (c.1, c.2, capiFails))) m).1.inits = m.inits := by
+  induction hist generalizing s m with
+  | nil => exact ⟨s, Or.inl rfl, h, rfl, rfl, rfl⟩
+  | cons c rest ih =>
+    obtain ⟨fb, t⟩ := c
+    simp only [List.map_cons, convertHistory]
+    obtain ⟨s1, hs1, hv, hpm, hin, hini⟩ := protoCall_closed s t fb m h
+    obtain ⟨s', hs', a, b, c, e⟩ := ih s1 _ hv
+    refine ⟨s', ?_, a, b.trans hpm, c.trans hin, e.trans hini⟩
+    rcases hs' with h1 | h1
+    · rcases hs1 with h2 | h2
+      · exact Or.inl (h1.trans h2)
+      · exact Or.inr (by rw [h1, h2]; exact List.mem_cons_self ..)
+    · exact Or.inr (List.mem_cons_of_mem _ h1)
+
+/-- (non-vacuity) the D13a model through a `ModelProto` history 21, 23, 20 (refused: downgrade), 23. -/
+example :
+    let r := convertHistory .proto [(.none, 21, capiFails), (.no, 23, capiFails), (.none, 20, capiFails),
+                                    (.yes, 23, capiFails)] d13aModel
+    r.1.declared = some 23 ∧ r.2 = [none, none, some .downgrade, none] ∧
+    pmNodes Op.meaning 23 r.1.nodes = pmNodes Op.meaning 20 d13aModel.nodes := by decide
+
+/-- **Two calls = one call, node by node (exact, not only up to meaning).**  A default-domain node without subgraphs
+that is written for `s` and carries no reference attribute, with `s ≤ u ≤ t` and no adapter raising on the way to
+`u`: the visit of a conversion to `u` followed — on every node it left, now under the declared opset `u` — by the
+visit of a conversion to `t` produces exactly the node list (operators, attributes, version stamps) that the single
+conversion to `t` produces, and none of the three visits raises.  So `18 → 20 → 22` and `18 → 22` cannot differ on
+such a node, whatever the adapters insert. -/
+theorem two_calls_eq_one_call (s u t : Nat) (l : Leaf) (hd : l.dflt = true) (hv : l.eff s = s)
+    (hr : l.refAttr = false) (h1 : s ≤ u) (h2 : u ≤ t) (hg : ∀ v', s ≤ v' → v' < u → adapt l.op v' ≠ .raised) :
+    (visitLeaf (some s) u l).1.flatMap (fun l' => (visitLeaf (some u) t l').1) = (visitLeaf (some s) t l).1 ∧
+    (visitLeaf (some s) u l).2 = none ∧ (visitLeaf (some s) t l).2 = none ∧
+    ∀ l' ∈ (visitLeaf (some s) u l).1, (visitLeaf (some u) t l').2 = none :=
+  two_visits_leaf s u t l hd hv hr h1 h2 hg
+
+/-- (non-vacuity) the hypotheses hold for the static GroupNormalization written for 18 with `u = 20`, `t = 22`; the
+rewrite (10 nodes) happens in the second call. -/
+example :
+    let l : Leaf := { dflt := true, op := .groupNorm gnStatic, version := none, refAttr := false }
+    l.eff 18 = 18 ∧ (∀ v', 18 ≤ v' → v' < 20 → adapt l.op v' ≠ .raised) ∧
+    (visitLeaf (some 18) 20 l).1.length = 1 ∧ (visitLeaf (some 18) 22 l).1.length = 10 := by
+  refine ⟨rfl, fun v' _ h2 => ?_, by decide, by decide⟩
+  have : v' ≠ 20 := by omega
+  simp [adapt, this]
+
+/-- (non-vacuity of `step_loop_composes`) GroupNormalization 18 → 20 → 22 = 18 → 22: ten nodes either way. -/
+example : leafSteps (2 + 2) 18 (newLeaf (.groupNorm gnStatic) 18)
+      = (leafSteps 2 18 (newLeaf (.groupNorm gnStatic) 18)).flatMap (leafSteps 2 20) ∧
+    (leafSteps 4 18 (newLeaf (.groupNorm gnStatic) 18)).length = 10 := by decide
 
 /-! ## Signature and initializers -/
 
